@@ -34,7 +34,7 @@ func stripNewFunc(t jsonapi.Type) jsonapi.Type { t.NewFunc = nil; return t }
 
 // genSchema: 1..3 types; a backed type is built with BuildType from the struct a user would declare.
 func genSchema(r *Rng, o *Out) (*jsonapi.Schema, []stype) {
-	names := []string{"t", "u", "articles"}
+	names := []string{"t", "ts", "st"} // t+"s1" = ts+"1" and "1s"+t = "1"+st: joined strings collide
 	n := 1 + r.IntN(3)
 	s := &jsonapi.Schema{}
 	var ts []stype
